@@ -173,12 +173,43 @@ def run(ctx):
         names = [f'L{i}' for i in range(rng.randint(1, 6))]
         rng.shuffle(names)
         en = E.EEnum(f'En{k}', literals=names)
+        # the domain of an enumeration changes with its history: literals appended, inserted, removed, added under a
+        # provisional name and renamed, renamed while members
+        hist = []
+        for step in range(rng.randint(0, 4)):
+            c = rng.random()
+            if c < .3:
+                lit = E.EEnumLiteral(f'N{k}_{step}', value=rng.randint(0, 9))
+                (en.eLiterals.append if rng.random() < .5 else (lambda x: en.eLiterals.insert(0, x)))(lit)
+                hist.append(f'add {lit.name}')
+            elif c < .55 and len(en.eLiterals):
+                lit = rng.choice(list(en.eLiterals))
+                old_ = lit.name
+                lit.name = f'R{k}_{step}'
+                hist.append(f'rename {old_} -> {lit.name}')
+            elif c < .7:
+                lit = E.EEnumLiteral(f'tmp{step}')
+                en.eLiterals.append(lit)
+                lit.name = f'P{k}_{step}'
+                hist.append(f'add as tmp{step}, rename -> {lit.name}')
+            elif len(en.eLiterals) > 1:
+                lit = rng.choice(list(en.eLiterals))
+                en.eLiterals.remove(lit)
+                hist.append(f'remove {lit.name}')
+                if rng.random() < .5:
+                    en.eLiterals.append(lit)
+                    hist.append(f're-add {lit.name}')
+        ctx.count('enum/history-steps', len(hist))
         for lit in en.eLiterals:
             ctx.evaluations += 1
-            back = en.from_string(en.to_string(lit))
+            try:
+                back = en.from_string(en.to_string(lit))
+            except Exception as e:
+                back = f'raised {type(e).__name__}'
             if back is not lit:
-                ctx.violate({'clause': 'roundtrip', 'datatype': 'EEnum'}, f'enum literal {lit} -> {en.to_string(lit)!r} -> {back}',
-                            {'literals': names, 'literal': str(lit)})
+                ctx.violate({'clause': 'roundtrip', 'datatype': 'EEnum'}, f'enum literal {lit} -> {en.to_string(lit)!r} -> {back} '
+                            f'(history: {hist or "as constructed"})', {'literals': names, 'literal': str(lit), 'history': hist})
+                break
     out = common.run_driver('codec', model_in)
     for line, exp, got in zip(model_in, expect, out):
         name, v, want = exp
